@@ -66,3 +66,46 @@ def net (t : Nat) : List RcEv → Int
   | .release u :: es => (if u = t then -1 else 0) + net t es
 
 end Mink
+
+namespace Mink
+
+/-! ### a whole call: every object slot of a method, any stub language with any skeleton
+    language (the 9 pairings of the bench) -/
+
+inductive BLang | c | cpp | rust
+  deriving DecidableEq, Repr
+
+/-- one object slot of a call, however it travels (directly, as an element of an object array,
+    as a field of a struct): its direction and the object in it (`none` = null). For an output
+    slot the object is the one the implementation produced. -/
+structure ObjSlot where
+  dir : Dir
+  tok : Option Nat
+  deriving DecidableEq, Repr
+
+/-- proxy operations the generated skeleton performs for one slot. C copies `Object` values
+    and blanks struct fields; Rust wraps bit copies in `ManuallyDrop` and moves outputs with
+    `take` / `transmute`: neither issues a count operation. -/
+def skelOps : BLang → ObjSlot → List POp
+  | .cpp, ⟨.inp, t⟩ => cppSkelIn t
+  | .cpp, ⟨.out, t⟩ => cppSkelOut t
+  | _, _ => []
+
+/-- proxy operations the generated stub performs for one slot (`held` = what the caller's
+    out-parameter held before the call; inputs are passed with `get()`: no effect) -/
+def stubOps (ok : Bool) (held : Option Nat) : BLang → ObjSlot → List POp
+  | .cpp, ⟨.out, t⟩ => cppStubOut held t ok
+  | _, _ => []
+
+/-- what the caller's out-parameter holds after the call, per language: C and Rust store the
+    returned object on success and leave the variable alone on failure -/
+def callerHolds (ok : Bool) (held : Option Nat) (stub : BLang) (s : ObjSlot) : Option Nat :=
+  match stub with
+  | .cpp => (runProxy none (stubOps ok held .cpp s)).1
+  | _ => if ok then s.tok else held
+
+/-- all count events of one call -/
+def callEvents (stub skel : BLang) (ok : Bool) (slots : List ObjSlot) : List RcEv :=
+  slots.flatMap fun s => (runProxy none (skelOps skel s)).2 ++ (runProxy none (stubOps ok none stub s)).2
+
+end Mink
